@@ -21,17 +21,13 @@ theorem post_leaf {env : Env} {cx : Cx} {g : MGamma} {e : Expr} {st st' : St} {m
   obtain ⟨t, dd, h2, h3⟩ := hsyn σ hσ hs gd hgd
   exact ⟨t, dd, h2, by rw [heq σ hs]; exact h3, by simp⟩
 
-theorem toMList_length : ∀ ps : List Ty, (toMList ps).length = ps.length
-  | [] => rfl
-  | _ :: ps => by simp [toMList, toMList_length ps]
-
 theorem den_tVerdict (σ : Val) (a b : MTy) : den σ (tVerdict a b) = .verdict (den σ a) (den σ b) := by
   simp [tVerdict, den, denL, denName, nmVerdict]
 
 theorem WT_tVerdict {a b : MTy} (ha : WT a = true) (hb : WT b = true) : WT (tVerdict a b) = true := by
   simp [tVerdict, WT, WTl, ha, hb, arity, nmVerdict, nmOption, nmList]
 
-set_option maxHeartbeats 1600000 in
+set_option maxHeartbeats 400000 in
 mutual
 theorem soundE (env : Env) (henv : EnvPlain env) (e : Expr) (hc : coreE e = true) :
     ∀ cx g st d st', WTs st.store → WTcx cx → WTg g → infer env cx g e st = .ok d st' →
@@ -355,8 +351,21 @@ theorem soundE (env : Env) (henv : EnvPlain env) (e : Expr) (hc : coreE e = true
   | listLit es =>
     simp only [coreE] at hc
     exact listLit_sound (fun cx g st d st' a b c h' => soundList env henv es hc cx g st d st' a b c h') hW hcx hg h
-  | field _ _ | mcall _ _ _ | assign _ _ _ _ | cassign _ _ _ _ _ | record _ _
-  | ctor _ _ _ | «match» _ _ | fstr _ => simp [coreE] at hc
+  | ctor ty k args =>
+    simp only [coreE] at hc
+    exact ctor_sound henv (fun ps hps cx g st d st' a b c h' => soundArgs env henv args hc ps hps cx g st d st' a b c h')
+      hW hcx hg h
+  | record ty fields =>
+    simp only [coreE] at hc
+    exact record_sound henv
+      (fun decl hd cx g st d st' a b c h' => soundFields env henv fields hc decl hd cx g st d st' a b c h') hW hcx hg h
+  | field e f =>
+    simp only [coreE] at hc
+    exact field_sound henv (fun cx g st d st' a b c h' => soundE env henv e hc cx g st d st' a b c h') hW hcx hg h
+  | assign ic x p e =>
+    simp only [coreE] at hc
+    exact assign_sound henv (fun cx g st d st' a b c h' => soundE env henv e hc cx g st d st' a b c h') hW hcx hg h
+  | mcall _ _ _ | cassign _ _ _ _ _ | «match» _ _ | fstr _ => simp [coreE] at hc
 termination_by sizeOf e
 
 theorem soundList (env : Env) (henv : EnvPlain env) (es : List Expr) (hc : coreL es = true) :
@@ -393,6 +402,52 @@ theorem soundList (env : Env) (henv : EnvPlain env) (es : List Expr) (hc : coreL
       · exact Or.inl (a3 hd)
       · exact Or.inr (b3 hd)
 termination_by sizeOf es
+
+theorem soundFields (env : Env) (henv : EnvPlain env) (fs : List Field) (hc : coreF fs = true)
+    (decl : List (Nat × Ty)) (hd : (decl.all fun f => plain f.2) = true) :
+    ∀ cx g st d st', WTs st.store → WTcx cx → WTg g → inferFields env cx g fs (toMFields decl) st = .ok d st' →
+      PostFields env cx g fs decl st d st' := by
+  intro cx g st d st' hW hcx hg h
+  cases fs with
+  | nil =>
+    simp only [inferFields] at h
+    obtain ⟨rfl, rfl⟩ := pure_ok.mp h
+    exact ⟨hW, fun σ _ hs => ⟨hs, fun gd _ => ⟨false, by simp [checkFields, pure, Except.pure], by simp⟩⟩⟩
+  | cons f rest =>
+    cases f with
+    | mk n e =>
+      simp only [coreF, Bool.and_eq_true] at hc
+      simp only [inferFields, lookup_toMFields] at h
+      cases hl : decl.lookup n with
+      | none => simp only [hl, Option.map_none] at h; exact (throw_ok.mp h).elim
+      | some t =>
+        simp only [hl, Option.map_some] at h
+        obtain ⟨d1, st1, h1, h2⟩ := bind_ok.mp h
+        obtain ⟨d2, st2, h3, h4⟩ := bind_ok.mp h2
+        obtain ⟨rfl, rfl⟩ := pure_ok.mp h4
+        have hpt := lookup_plain hd hl
+        have hWt : WT (toM t) = true := (den_toM (fun _ => .unit) t hpt).2.1
+        obtain ⟨hW1, hp1⟩ := soundE env henv e hc.1 (cx.withTy (toM t)) g st d1 st1 hW (WTcx_with hcx hWt) hg h1
+        obtain ⟨hW2, hp2⟩ := soundFields env henv rest hc.2 decl hd cx g st1 d2 st2 hW1 hcx hg h3
+        refine ⟨hW2, fun σ hσ hs => ?_⟩
+        obtain ⟨hs1, hsyn2⟩ := hp2 σ hσ hs
+        obtain ⟨hs0, hsyn1⟩ := hp1 σ hσ hs1
+        refine ⟨hs0, fun gd hgd => ?_⟩
+        obtain ⟨te, dd1, a1, a2, a3⟩ := hsyn1 gd hgd
+        obtain ⟨dd2, b1, b2⟩ := hsyn2 gd hgd
+        have a1' : synth env (denCx σ cx) gd e = .ok (te, dd1) := a1
+        obtain ⟨hdt, _, hgt⟩ := den_toM σ t hpt
+        have a2' : inst te t = true := by
+          have : inst te (den σ (toM t)) = true := a2
+          rwa [hdt] at this
+        refine ⟨dd1 || dd2, ?_, ?_⟩
+        · simp only [checkFields, a1', hl, expect_ok' (inst_compat te t hgt a2'), b1, bind, Except.bind, pure, Except.pure]
+        · intro hd'
+          simp only [Bool.or_eq_true] at hd' ⊢
+          rcases hd' with hd' | hd'
+          · exact Or.inl (a3 hd')
+          · exact Or.inr (b2 hd')
+termination_by sizeOf fs
 
 theorem soundArgs (env : Env) (henv : EnvPlain env) (es : List Expr) (hc : coreL es = true) (ps : List Ty)
     (hps : ps.all plain = true) :
